@@ -202,16 +202,24 @@ Definition it_skip (s : list ver) (it : iter) : iter :=
 Definition it_seek_first (s : list ver) (it : iter) : iter :=
   it_skip s (mkIter (it_sn it) 0 (it_count it) (it_rate it)).
 
-(** skiplist Seek with iterCmp: first version whose key is >= the probe (oldest physical version) *)
+(** The store iterator uses the insert comparator (iterator.go NewIterator): skiplist Seek lands on
+    the first version that is not before the probe (key, bornSn). *)
+Definition ins_pos (s : list ver) (bs : list N) (born : N) : nat :=
+  length (fst (span (before_ins kcmp bs born) s)).
+
+(** first version whose key is >= the probe (the oldest physical version of that key) *)
 Definition key_pos (s : list ver) (bs : list N) : nat := length (fst (span (before_key kcmp bs) s)).
 
+(** iterator.go:46-50 Seek: the probe item has bornSn 0, so it lands on the first version of the
+    first key >= bs, then the visibility filter is applied *)
 Definition it_seek (s : list ver) (it : iter) (bs : list N) : iter :=
-  it_skip s (mkIter (it_sn it) (key_pos s bs) (it_count it) (it_rate it)).
+  it_skip s (mkIter (it_sn it) (ins_pos s bs 0) (it_count it) (it_rate it)).
 
-(** iterator.go:86-93 Refresh: re-seek by the current item's key, then re-apply the visibility filter *)
+(** iterator.go:82-93 Refresh: re-seek with a copy of the current item (key AND bornSn), then
+    re-apply the visibility filter *)
 Definition it_refresh (s : list ver) (it : iter) : iter :=
   match it_get s it with
-  | Some v => it_skip s (mkIter (it_sn it) (key_pos s (vitem v)) (it_count it) (it_rate it))
+  | Some v => it_skip s (mkIter (it_sn it) (ins_pos s (vitem v) (vborn v)) (it_count it) (it_rate it))
   | None => it
   end.
 
